@@ -3,6 +3,7 @@ package props
 // C12 — chat reaches exactly its audience.
 
 import (
+	"bytes"
 	"fmt"
 	"sort"
 	"strings"
@@ -409,6 +410,99 @@ func c12prop(ev *evid.Rec) func(rt *rapid.T) {
 					c.conn.Request(hlref.TranSetChatSubject, fld(hlref.FChatID, []byte(ch.id)), fld(hlref.FChatSubject, subj))
 					verify("set subject", memberLines(ch, fmt.Sprintf("119 chat=%x subject=%q", ch.id, subj)))
 				},
+				"burst": func(rt *rapid.T) {
+					// several members of one private chat act at the same instant (their handlers run concurrently):
+					// lines sent by 2+ members, optionally while another member leaves / an invited user joins
+					ch := pickChat("chat", func(ch *c12chat) bool {
+						n := 0
+						for m := range ch.members {
+							if clients[m].connected {
+								n++
+							}
+						}
+						return n >= 3
+					})
+					if ch == nil {
+						rt.Skip()
+					}
+					var mem []*c12client
+					for _, c := range clients {
+						if c.connected && ch.members[c.idx] {
+							mem = append(mem, c)
+						}
+					}
+					var leaver, joiner *c12client
+					if rapid.Bool().Draw(rt, "withLeave") {
+						leaver = mem[rapid.IntRange(0, len(mem)-1).Draw(rt, "leaver")]
+					}
+					if rapid.Bool().Draw(rt, "withJoin") {
+						joiner = pick("joiner", func(o *c12client) bool { return o.connected && ch.invited[o.idx] && !ch.members[o.idx] })
+					}
+					type line struct {
+						from *c12client
+						text string
+					}
+					var lines []line
+					for _, c := range mem {
+						if c == leaver || !c.send {
+							continue
+						}
+						k := rapid.IntRange(0, 2).Draw(rt, fmt.Sprintf("nlines%d", c.idx))
+						for i := 0; i < k; i++ {
+							msg := []byte(fmt.Sprintf("burst %d-%d-%d", len(history), c.idx, i))
+							lines = append(lines, line{c, fmt.Sprintf("106 chat=%x text=%q", ch.id, chatLine(c.name, msg, false))})
+							c.conn.SendAsync(hlref.Tran{Type: hlref.TranChatSend, ID: c.conn.NewID(), Fields: []hlref.Field{fld(hlref.FData, msg), fld(hlref.FChatID, []byte(ch.id))}}.Encode())
+						}
+					}
+					if len(lines) < 2 && leaver == nil && joiner == nil {
+						settle(0)
+						drain()
+						rt.Skip()
+					}
+					if leaver != nil {
+						leaver.conn.SendAsync(hlref.Tran{Type: hlref.TranLeaveChat, ID: leaver.conn.NewID(), Fields: []hlref.Field{fld(hlref.FChatID, []byte(ch.id))}}.Encode())
+					}
+					if joiner != nil {
+						joiner.conn.SendAsync(hlref.Tran{Type: hlref.TranJoinChat, ID: joiner.conn.NewID(), Fields: []hlref.Field{fld(hlref.FChatID, []byte(ch.id))}}.Encode())
+					}
+					history = append(history, fmt.Sprintf("burst chat%d: %d lines at once, leaver=%v joiner=%v", chatIndex(chats, ch), len(lines), leaver != nil, joiner != nil))
+					settle(0)
+					for _, o := range connected() {
+						got := map[string]int{}
+						for _, t := range o.conn.TakeInbox() {
+							if chatRelevant(t) {
+								got[chatNorm(t)]++
+							}
+						}
+						stable := ch.members[o.idx] && o != leaver
+						for _, l := range lines {
+							n := got[l.text]
+							delete(got, l.text)
+							switch {
+							case stable && n != 1:
+								fail("burst: member %d of chat%d received the line %q %d times (several members sent at once, leaver=%v joiner=%v)", o.idx, chatIndex(chats, ch), l.text, n, leaver != nil, joiner != nil)
+							case !stable && o != leaver && o != joiner && n != 0:
+								fail("burst: client %d is not a member of chat%d but received %q", o.idx, chatIndex(chats, ch), l.text)
+							case n > 1:
+								fail("burst: client %d received the line %q %d times", o.idx, l.text, n)
+							}
+						}
+						for k, n := range got {
+							// join / leave notices: at most once each, and only to members (or the joining / leaving user racing with them)
+							if n > 1 || (!ch.members[o.idx] && o != joiner) {
+								fail("burst: client %d received %q %d times", o.idx, k, n)
+							}
+						}
+					}
+					if leaver != nil {
+						delete(ch.members, leaver.idx)
+					}
+					if joiner != nil {
+						ch.members[joiner.idx] = true
+						delete(ch.invited, joiner.idx)
+					}
+					strictSubset = true
+				},
 				"privateSend": func(rt *rapid.T) {
 					ch := pickChat("chat", func(ch *c12chat) bool { return len(ch.members) > 0 })
 					if ch == nil {
@@ -456,4 +550,91 @@ func TestC12(t *testing.T) {
 	ev := evid.New("C12", "TestC12")
 	defer ev.Flush()
 	rapid.Check(t, c12prop(ev))
+}
+
+// TestC12Burst: one private chat with 6 members; in every round all members but one send
+// lines at the same instant while the remaining one leaves the chat (and is re-invited and
+// rejoins before the next round).  Every member that stays must receive every line exactly
+// once.  This is the concurrent slice of C12's quantifier ("all interleavings ... by any
+// number of clients"): the handlers of different connections run at the same time.
+func TestC12Burst(t *testing.T) {
+	ev := evid.New("C12", "TestC12Burst")
+	defer ev.Flush()
+	rapid.Check(t, func(rt *rapid.T) {
+		const n = 6
+		rounds := rapid.IntRange(20, 40).Draw(rt, "rounds")
+		sizes := rapid.SliceOfN(rapid.SampledFrom([]int{10, 500, 4000, 8100}), rounds, rounds).Draw(rt, "sizes")
+		leavers := rapid.SliceOfN(rapid.IntRange(1, n-1), rounds, rounds).Draw(rt, "leavers")
+		var accounts []hlsim.AccountSpec
+		for i := 0; i < n; i++ {
+			accounts = append(accounts, acct(fmt.Sprintf("u%d", i), "U", "pw", hlref.AccessOf(hlref.PrivAnyName, hlref.PrivReadChat, hlref.PrivSendChat, hlref.PrivOpenChat)))
+		}
+		inWorld(rt, hlsim.Options{Agreement: "a", Accounts: accounts}, func(rt *rapid.T, w *hlsim.World) {
+			var cs []*hlsim.Conn
+			for i := 0; i < n; i++ {
+				cs = append(cs, loginAs(rt, w, fmt.Sprintf("10.12.9.%d:1", i+1), fmt.Sprintf("u%d", i), "pw", fmt.Sprintf("member%d", i)))
+			}
+			r := cs[0].Request(hlref.TranInviteNewChat, fld(hlref.FUserID, hlref.BE16(2)))
+			if !okReply(r) {
+				rt.Fatalf("harness: invite")
+			}
+			chat, _ := r.Get(hlref.FChatID)
+			for i := 1; i < n; i++ {
+				if i > 1 && !okReply(cs[0].Request(hlref.TranInviteToChat, fld(hlref.FUserID, hlref.BE16(i+1)), fld(hlref.FChatID, chat))) {
+					rt.Fatalf("harness: invite %d", i)
+				}
+				if !okReply(cs[i].Request(hlref.TranJoinChat, fld(hlref.FChatID, chat))) {
+					rt.Fatalf("harness: join %d", i)
+				}
+			}
+			for _, c := range cs {
+				c.TakeInbox()
+			}
+			for round := 0; round < rounds; round++ {
+				L := leavers[round]
+				var texts []string
+				for i := 0; i < n; i++ {
+					if i == L {
+						continue
+					}
+					for k := 0; k < 2; k++ {
+						msg := append([]byte(fmt.Sprintf("r%d m%d l%d ", round, i, k)), bytes.Repeat([]byte{'x'}, sizes[round])...)
+						texts = append(texts, string(chatLine([]byte(fmt.Sprintf("member%d", i)), msg, false)))
+						cs[i].SendAsync(hlref.Tran{Type: hlref.TranChatSend, ID: cs[i].NewID(), Fields: []hlref.Field{fld(hlref.FData, msg), fld(hlref.FChatID, chat)}}.Encode())
+					}
+				}
+				cs[L].SendAsync(hlref.Tran{Type: hlref.TranLeaveChat, ID: cs[L].NewID(), Fields: []hlref.Field{fld(hlref.FChatID, chat)}}.Encode())
+				settle(0)
+				for i, c := range cs {
+					got := map[string]int{}
+					for _, tr := range c.TakeInbox() {
+						if tr.Type == hlref.TranChatMsg {
+							d, _ := tr.Get(hlref.FData)
+							got[string(d)]++
+						}
+					}
+					for _, tx := range texts {
+						if i != L && got[tx] != 1 {
+							rt.Fatalf("round %d: %d members sent at the same instant while member %d left: member %d received the line %q... %d times", round, n-1, L, i, tx[:40], got[tx])
+						}
+						if i == L && got[tx] > 1 {
+							rt.Fatalf("round %d: the leaving member received a line %d times", round, got[tx])
+						}
+					}
+				}
+				// the member that left comes back
+				if !okReply(cs[0].Request(hlref.TranInviteToChat, fld(hlref.FUserID, hlref.BE16(L+1)), fld(hlref.FChatID, chat))) || !okReply(cs[L].Request(hlref.TranJoinChat, fld(hlref.FChatID, chat))) {
+					rt.Fatalf("harness: rejoin")
+				}
+				for _, c := range cs {
+					c.TakeInbox()
+				}
+			}
+		})
+		ev.Case(evid.Hash("burst", fmt.Sprint(sizes), fmt.Sprint(leavers)), true, "burst-rounds")
+		ev.Label("burst_rounds", rounds)
+		if ev.WantSample() {
+			ev.Sample(map[string]any{"engine": "bubble, concurrent handlers", "members": n, "rounds": rounds, "line_sizes": sizes[:min(len(sizes), 8)], "leaving_member_per_round": leavers[:min(len(leavers), 8)]})
+		}
+	})
 }
